@@ -248,6 +248,13 @@ func runC04(c *Ctx) {
 		ok, why := monotoneOver(ff, arg, finH)
 		c.Require("C04.R3 monotone-argument", key, p.InstrPos(s.Call),
 			"argument is φ(stored, x) with x > stored proved on x's edge (or max(stored, x))", ok, why)
+		// … and the raise is not withheld: wherever the stored height is kept, the candidate is
+		// known not to exceed it (nothing else — a mode flag, an error ignored — may veto the raise)
+		if ok {
+			ok2, why2 := raisedWhenever(ff, arg, finH)
+			c.Require("C04.R3 raise-not-withheld", key, p.InstrPos(s.Call),
+				"the stored height is kept only on edges where the precommitted height does not exceed it", ok2, why2)
+		}
 		// the precommitted height is the one the block being applied produced: it is read after
 		// the block's execution (whose first step, the BFT hook, recomputes it in the staged store)
 		{
@@ -347,6 +354,37 @@ func monotoneOver(ff *FuncFacts, v ssa.Value, stored Matcher) (bool, string) {
 			return false, fmt.Sprintf("φ edge %d carries %s with no dominating fact proving it ≥ stored height", i, et)
 		}
 		why = append(why, fmt.Sprintf("edge %d: %s because %s", i, et, f))
+	}
+	return true, strings.Join(why, "; ")
+}
+
+// raisedWhenever: every φ edge that keeps the stored height carries the fact candidate <= stored.
+func raisedWhenever(ff *FuncFacts, v ssa.Value, stored Matcher) (bool, string) {
+	phi, ok := v.(*ssa.Phi)
+	if !ok {
+		return true, "no φ: max(stored, x) or the stored height itself"
+	}
+	var cands []ssa.Value
+	for _, e := range phi.Edges {
+		if !stored.Match(ff.Term(e)) {
+			cands = append(cands, e)
+		}
+	}
+	var why []string
+	for i, e := range phi.Edges {
+		if !stored.Match(ff.Term(e)) {
+			continue
+		}
+		pred := phi.Block().Preds[i]
+		for _, cand := range cands {
+			ct := ff.Term(cand)
+			this := Matcher{"candidate", func(x *Term) bool { return x.V == cand || x.String() == ct.String() }}
+			ok, f := ff.CmpHoldsOnEdge(pred, phi.Block(), CmpSpec{A: this, B: stored, Rel: LE, D: 0})
+			if !ok {
+				return false, fmt.Sprintf("φ edge %d (from b%d) keeps the stored height although nothing there says %s <= stored", i, pred.Index, ct)
+			}
+			why = append(why, fmt.Sprintf("edge %d: %s", i, f))
+		}
 	}
 	return true, strings.Join(why, "; ")
 }
